@@ -24,6 +24,7 @@ import GoderiveModel.U.Utf8
 import GoderiveModel.S.Equal
 import GoderiveModel.S.Compare
 import GoderiveModel.S.Hash
+import GoderiveModel.S.Methods
 
 namespace Goderive
 namespace Lists
@@ -117,6 +118,33 @@ def sortLess (env : Env) (E : Ty) : Option (Val → Val → Res Bool) :=
   | .slice _ => some fun a b => cmpNeg (Compare.top env E a b)
   | .array _ _ => some fun a b => cmpNeg (Compare.top env E a b)
   | .map _ _ => some fun a b => cmpNeg (Compare.top env E a b)
+  | _ => none
+
+/-! The same choices with the method-aware models of S/Methods.lean (`EqualM`, `CompareM`: a named type that
+declares its own Equal / Compare method is compared by that method where the generator calls it). The
+plugins' own `canEqual` / `isOrdered` tests are structural and do not look at methods. On environments
+without methods these coincide with the definitions above (`EqualM` / `CompareM` agree with `Equal` /
+`Compare` there: Props/C02, C03); the driver runs these. -/
+
+def elemEqM (env : Env) (E : Ty) : Val → Val → Res Bool :=
+  if canEqual env E then fun a b => .ok (goEq a b) else EqualM.top env E
+
+def minLtM (env : Env) (E : Ty) : Val → Val → Res Bool :=
+  if isOrderedBasic E then goLt else fun a b => cmpNeg (CompareM.top env E a b)
+
+def maxGtM (env : Env) (E : Ty) : Val → Val → Res Bool :=
+  if isOrderedBasic E then fun a b => goLt b a else fun a b => cmpPos (CompareM.top env E a b)
+
+def sortLessM (env : Env) (E : Ty) : Option (Val → Val → Res Bool) :=
+  match env.under E with
+  | .basic .bool => some fun a b => cmpNeg (CompareM.top env E a b)
+  | .basic (.complex _) => some fun a b => cmpNeg (CompareM.top env E a b)
+  | .basic _ => some goLt
+  | .ptr _ => some fun a b => cmpNeg (CompareM.top env E a b)
+  | .struct _ => some fun a b => cmpNeg (CompareM.top env E a b)
+  | .slice _ => some fun a b => cmpNeg (CompareM.top env E a b)
+  | .array _ _ => some fun a b => cmpNeg (CompareM.top env E a b)
+  | .map _ _ => some fun a b => cmpNeg (CompareM.top env E a b)
   | _ => none
 
 /-- unique: `derive.IsComparable(elem)` chooses `keys(set(list))`, otherwise the hash-bucket loop -/
